@@ -186,6 +186,46 @@ def batch_diff(rp, sess, label, schema, marker):
     return inside_alloc, None
 
 
+def agent_side(rp, lc, sess, row, nodes, scratch):
+    """a pilot of `nodes` whole nodes on the platform of `row`: the figures of the job (real _prepare_pilot) against what
+    the agent's resource manager makes of the configuration it is handed (real ResourceManager._init_from_scratch of the
+    platform's resource manager, in an allocation of exactly the nodes the job asked for).  Returns (job, agent) or None
+    if the platform's resource manager cannot be run here."""
+    from props import c18
+    kind = (row['rm'] or '').lower()
+    if kind not in ('slurm', 'torque', 'lsf', 'pbspro', 'cobalt', 'ccm', 'fork'):
+        return None
+    res = size_real(rp, lc, sess, row['label'], row['schema'], {'nodes': nodes}, 0)
+    if not isinstance(res, dict):
+        return None
+    hosts = [0, 1, 6, 7][:nodes]                       # node001, node002, node010, gpu-a of c18.HOSTS
+    per   = max(1, res['cores_per_node']) if kind == 'lsf' else 1
+    case = {'op': 'init', 'kind': kind, 'exec_vnode': None, 'stale': None,
+            'cfg': {'cpn': res['cores_per_node'], 'gpn': res['gpus_per_node'], 'smt': row['smt'], 'nodes': res['nodes'],
+                    'cores': res['cores'], 'gpus': res['gpus'], 'backup': 0, 'blocked_cores': list(row['blockedCores']),
+                    'blocked_gpus': list(row['blockedGpus']), 'agent_nodes': 0, 'service_nodes': 0, 'env_gpus': None, 'env_gpu_ids': 0},
+            'lines': [{'id': h, 'login': False, 'batch': False} for h in hosts for _ in range(per)],
+            'hosts': [{'id': h, 'login': False, 'batch': False} for h in hosts],
+            'env_cpus': None, 'detected': 64, 'reach': list(range(len(c18.HOSTS))), 'hang': []}
+    rm, shared, err = c18.run_real(rp, case, scratch)
+    if rm == 'error':
+        return res, {'error': err}
+    usable = [sum(1 for c in n[2] if c == 0) for n in rm['node_list']]
+    gpus   = [sum(1 for g in n[3] if g == 0) for n in rm['node_list']]
+    return res, {'nodes': len(rm['node_list']), 'usable_cores_per_node': sorted(set(usable)), 'usable_cores': sum(usable),
+                 'usable_gpus': sum(gpus)}
+
+
+def agent_side_monitor(job, agent):
+    if 'error' in agent:
+        return ('agent-resource-manager-refuses-the-configuration-of-the-job', agent['error'])
+    want = {'nodes': job['node_count'], 'usable_cores_per_node': [job['processes_per_host']], 'usable_cores': job['total_cpu_count'],
+            'usable_gpus': job['total_gpu_count']}
+    if agent != want:
+        return ('agent-figures-differ-from-the-job', 'the job asks for %s; the agent\'s resource manager offers %s' % (want, agent))
+    return None
+
+
 def history_diff(rp, label, schemas):
     """resolve `label` under its schemas in the given order in one session and in the opposite order in
     another; returns (schema, differing keys) if a configuration depends on the order"""
@@ -412,6 +452,22 @@ def run(ctx):
                      % (len(staged), r['label'], bad_file[0]['pid'], bad_file[1], bad_file[0]['told']),
                      {'kind': 'size', 'label': r['label'], 'schema': r['schema'], 'pd': bulk[-1][0], 'smt_env': bulk[-1][1],
                       'earlier_pilots_of_the_bulk': list(bulk[:-1])})
+    # -- (c) the agent side: what the platform's resource manager makes of the figures it is handed ---------------------
+    na, seen_a = 0, set()
+    for r in rows:
+        if (r['label'], r['schema']) in seen_a or not r['schemaOk'] or not r['cpn']: continue
+        seen_a.add((r['label'], r['schema']))
+        if not (r['blockedCores'] or r['blockedGpus']) and (len(seen_a) % 5): continue      # every platform that blocks something, a fifth of the others
+        for nodes in (1, 2):
+            ja = agent_side(rp, lc, sess, r, nodes, ctx.scratch)
+            if ja is None: continue
+            na += 1
+            ctx.case({'agent_side': [r['label'], r['schema'], nodes]}, nontrivial=bool(r['blockedCores'] or r['blockedGpus']))
+            bad = agent_side_monitor(*ja)
+            if bad:
+                ctx.fail(bad[0] + ':' + r['label'], bad[1], {'kind': 'agent_side', 'label': r['label'], 'schema': r['schema'], 'nodes': nodes})
+    ctx.obligation('the agent\'s resource manager, run on the configuration _prepare_pilot hands it in an allocation of the nodes the job asks '
+                   'for, offers the node count, usable cores per node, cores and GPUs of the job (%d pilots)' % na, 'tie', na > 0, '')
     ctx.sample({'op': ops[0], 'real_prepare_pilot': impl[0]}, limit=1)
     ctx.sample({'op': ops[-1], 'real_prepare_pilot': impl[-1]}, limit=2)
     ctx.extra['distribution'] = dist
@@ -436,6 +492,13 @@ def replay(ctx, data):
         diff = history_diff(rp, i['label'], i['schemas'])
         print('observed:', diff)
         return not diff
+    if i['kind'] == 'agent_side':
+        lc = make_launcher(rp, ctx.scratch)
+        rows = [r for r in translate.resource_rows(common.SRC) if r['label'] == i['label'] and r['schema'] == i['schema']]
+        ja = agent_side(rp, lc, sess, rows[0], i['nodes'], ctx.scratch)
+        bad = agent_side_monitor(*ja) if ja else None
+        print(ja); print(bad)
+        return not bad
     if i['kind'] == 'batch':
         ins, diff = batch_diff(rp, sess, i['label'], i['schema'], i['marker'])
         print('observed: inside an allocation of its resource manager: %s; differs: %s' % (ins, diff))
@@ -470,4 +533,4 @@ def replay(ctx, data):
             try: os.unlink(e['file'])
             except Exception: pass
         return ok
-    return False
+    raise NotImplementedError('replay: unknown kind of input')
